@@ -227,17 +227,6 @@ func decodedPub(c *mon.Case, what string, s *subject, got any, err error) bool {
 	return true
 }
 
-func isNilKey(k any) bool {
-	if k == nil {
-		return true
-	}
-	switch fmt.Sprintf("%v", k) {
-	case "<nil>":
-		return true
-	}
-	return false
-}
-
 // refused judges a negative: the call must not deliver a key.
 // what names the entry point and the reason the input is wrong.
 func refused(c *mon.Case, what string, got any, err error) bool {
